@@ -1,6 +1,7 @@
 import Hertz.Model.Http1.RespRead
 import Hertz.Proofs.Resp
 import Hertz.Proofs.Dec
+import Hertz.Proofs.PrefixStableResp
 /-!
 Lemmas for C11 `response_roundtrip`: the client's response reader model (`RespRead`) applied to the
 bytes of the response writer model (`HW.RespHdr.bytes` ++ `Resp.frame … .wire`).
@@ -607,7 +608,7 @@ def scanned (dn : Bool) (st : Nat) (fs : List (Bytes × Bytes)) : HState :=
 field, then the empty line): the status, exactly the fields written, and the reader stops exactly at
 the end of the head. -/
 theorem readHeaders_written (dn : Bool) (e : End) (st : Nat) (reason : Bytes) (fs : List (Bytes × Bytes)) (X : Bytes)
-    (hst : st < 2 ^ 63) (h100 : st ≠ 100) (hr : ∀ x ∈ reason, x ≠ 13 ∧ x ≠ 10) (h : wfFields dn fs = true)
+    (hst : st < 2 ^ 63) (h100 : isInterim st = false) (hr : ∀ x ∈ reason, x ≠ 13 ∧ x ≠ 10) (h : wfFields dn fs = true)
     (herr : (scanned dn st fs).err = false) :
     RespRead.readHeaders dn e (statusLine st reason ++ strCRLF ++ HW.block fs ++ X) =
       .ok (finishHead (scanned dn st fs).head, X) := by
@@ -630,11 +631,10 @@ theorem readHeaders_written (dn : Bool) (e : End) (st : Nat) (reason : Bytes) (f
         (statusLine st reason ++ 13 :: 10 :: (HW.block fs ++ X)) = X := by
       rw [← List.drop_drop, hd, List.drop_left]
     rw [hd2]; rfl
-  unfold RespRead.readHeaders
-  rw [hrh]
-  have hs : (finishHead (scanned dn st fs).head).status ≠ 100 := by
+  rw [readHeaders_step, hrh]
+  have hs : isInterim (finishHead (scanned dn st fs).head).status = false := by
     rw [finishHead_status, scanned, applyAll_status]; exact h100
-  simp only [hs, if_false]
+  simp only [hs, Bool.false_eq_true, if_false]
 
 /-! ## Stage C — a whole response -/
 
@@ -1074,8 +1074,7 @@ theorem response_roundtrip (dn : Bool) (maxBody : Nat) (e : End) (r : WResp) (re
       .ok { head := r.seenHead, body := r.body.content, trailers := [], rest := rest } := by
   have p := wfResp_parts hw
   have hwire : ∀ X, r.hdr.bytes ++ X = statusLine r.status r.reason ++ strCRLF ++ HW.block r.hdr.fields ++ X := fun X => rfl
-  have hne : r.status ≠ 100 := by
-    intro e100; have := p.skip; rw [e100] at this; exact absurd this (by decide)
+  have hne : isInterim r.status = false := notInterim_of_notSkip r.status p.skip
   have hfil : r.seenFields.filter (fun kv => kv.1 != strTransferEncoding) = r.seenFields := by
     rw [List.filter_eq_self]
     intro kv hkv
